@@ -146,8 +146,7 @@ func runC07(r *core.Run) {
 		add("S0", []string{"core"}, 2, "stmt")
 		add("S0", []string{"gfm", rich}, 2, "func")
 		add("S1", three, 1, "stmt")
-		add("S2", []string{rich}, 1, "stmt")
-		add("S2", []string{"core", "gfm"}, 1, "func")
+		add("S2", []string{"core", "gfm", rich}, 1, "func") // statement granularity for S2: the custom configuration below (a superset of rich)
 		add("S3", []string{rich}, 1, "func")
 		add("S4", three, 1, "stmt")
 		add("S5", three, 1, "stmt")
